@@ -95,6 +95,35 @@ func checkDoublePositions(c *core.Ctx, v float64) {
 		report("encode", "error", fmt.Sprint(enc.Err, enc.Panic), "")
 		return
 	}
+	// every double in the stream must use the shortest exact form, wherever it sits
+	if pv, err := rh.ParseOne(enc.Bytes); err != nil {
+		report("refparse", "malformed", "reference decoder rejects the stream: "+err.Error(), hexs(enc.Bytes))
+		return
+	} else {
+		var bad string
+		var walk func(x *rh.Value, path string)
+		seen := map[*rh.Value]bool{}
+		walk = func(x *rh.Value, path string) {
+			if x == nil || seen[x] {
+				return
+			}
+			seen[x] = true
+			if x.K == rh.Double && !math.IsNaN(x.F) && bad == "" {
+				want := rh.ShortestDouble(x.F)
+				if x.Octets != want {
+					bad = fmt.Sprintf("double %v at %s written in %d octets, shortest exact form has %d", x.F, path, x.Octets, want)
+				}
+			}
+			for i, e := range x.Elems {
+				walk(e, fmt.Sprintf("%s/%d", path, i))
+			}
+		}
+		walk(pv, "$")
+		if bad != "" {
+			report("encode", "form", "a double at a non-top position is not in the shortest exact form", bad+" | "+hexs(enc.Bytes))
+			return
+		}
+	}
 	dec := Decode(enc.Bytes, tm)
 	if !dec.OK() {
 		report("decode", "error", fmt.Sprint(dec.Err, dec.Panic), hexs(enc.Bytes))
